@@ -33,14 +33,14 @@ impl Prop for C02 {
     }
 
     fn strategy(_tier: Tier, _shard: u32) -> BoxedStrategy<Case> {
-        (table_strategy(48), special_cfg())
+        (prop_oneof![12 => table_strategy(48), 1 => table_strategy(160)], special_cfg())
             .prop_flat_map(|((letters, table), special)| {
                 let n = table.entries.len();
                 let t1 = table_text(letters.clone(), table.clone(), 6);
                 let t2 = (table_text(letters, table.clone(), 3), gen::text(6), gen::ws_run(0, 2))
                     .prop_map(|(a, b, w)| format!("{a}{b}{w}"));
                 (
-                    prop_oneof![3 => t1, 2 => t2, 1 => gen::text(10)],
+                    prop_oneof![6 => t1, 4 => t2, 2 => gen::text(10), 1 => gen::text(60)],
                     max_vocab_strategy(n),
                     any::<bool>(),
                 )
